@@ -23,6 +23,8 @@ def stream_element(R, tier, seed):
         for ny in _nys(tier):
             if kind == "full" and ny % 2 == 0: continue
             mesh = gen.rand_mesh(rng, 2, ny, kind)
+            if kind == "full":
+                mesh = mesh + np.array([0.0, float(rng.uniform(3, 9)), 0.0])     # off the centreline: the clamp is the middle node, not the one nearest y = 0
             nodes = 0.65 * mesh[0] + 0.35 * mesh[-1]
             surf = gen.tube_surface(mesh, symmetry=(kind != "full"))
             ne = ny - 1
@@ -84,6 +86,8 @@ def stream_fem(R, tier, seed):
         for ny in _nys(tier):
             if kind == "full" and ny % 2 == 0: continue
             mesh = gen.rand_mesh(rng, 2, ny, kind)
+            if kind == "full":
+                mesh = mesh + np.array([0.0, float(rng.uniform(3, 9)), 0.0])     # off the centreline: the clamp is the middle node, not the one nearest y = 0
             nodes = 0.65 * mesh[0] + 0.35 * mesh[-1]
             sym = kind != "full"
             surf = gen.tube_surface(mesh, symmetry=sym)
